@@ -72,8 +72,28 @@ def run(ctx) -> None:
     # N4 every line's operands come from that line
     from ._parser import lines_parsed_independently
     lines_parsed_independently(ctx, "C09.N4.lines-parsed-independently")
-    # N3b operand token class
     paths, sites, pats = instr_patterns(I)
+    # N5: a line with operands is never parsed by the operand-less regex
+    from ..lineflow import instruction_sites, match_calls, origin
+    n_no = 0
+    for site in sites:
+        ops = site.fields.get("operands")
+        grp = [origin(I, v) for v in site.fields.values() if not isinstance(v, (ListV, AbsList))]
+        pats_used = {o[1] for o in grp if o[0] == "group"}
+        if not pats_used:
+            continue
+        from ..lineflow import LineShape
+        shapes = [LineShape(p_) for p_ in pats_used]
+        if any(sh.ngroups == 2 for sh in shapes):
+            n_no += 1
+            # the 3-group regex must have been tried on the same line and failed on this path
+            tried = [e for e in match_calls(site.path) if e.args and isinstance(e.args[0], Str) and e.args[0].is_concrete()
+                     and LineShape(e.args[0].text()).ngroups >= 3]
+            failed = any(isinstance(k, tuple) and k[0] == "truth" and v is False and "match" in str(k) for k, v, _ in site.path.conds)
+            ctx.check(bool(tried) and failed, "C09.N5.operands-regex-first", site.where.split(" ")[-1],
+                      "an operand-less Instruction is built without the operand-bearing regex having failed",
+                      "the operand-less line regex is only used after the operand-bearing one did not match")
+    # N3b operand token class
     for pat, roles in pats.items():
         sh = LineShape(pat)
         if sh.ngroups >= 3:
